@@ -13,6 +13,7 @@
 import CedarProofs.DecodeText
 import CedarProofs.DecodeNoEnd
 import CedarGen.FactsAdRead
+import CedarGen.FactsAlloc
 
 namespace Cedar.C13
 
@@ -242,6 +243,46 @@ theorem handshake_ads_bounded (pfail : Option Nat) (st : St) :
       have : (8 : Nat) ≤ maxHandshakeAdCap := by decide
       omega
     exact ⟨by omega, by omega⟩
+
+/-- every slice allocation in the packages that handle peer input whose size is a VARIABLE, with what
+    bounds that variable (read off the code; the engines measure the same sites dynamically) -/
+def declaredVariableSized : List (String × String × String) := [
+  -- shared-port header: the length field is checked against the header limit before the read (passsock_bounded)
+  ("client/sharedport", "readPassSockHeader", "length"),
+  -- control-message space for ONE descriptor: a function of the constant 4
+  ("client/sharedport", "receiveForwardedConn", "syscall.CmsgSpace(4)"),
+  -- typed layer: sized only after `ensureData` saw that many bytes ARRIVE in the message (linear_typed)
+  ("message", "GetBytes", "numBytes"),
+  ("message", "GetRemainingBytes", "m.buffer.Len()"),
+  -- encrypted-mode string: the length prefix is rejected when negative or beyond what the message holds (total_typed)
+  ("message", "GetString", "length"),
+  -- capped string: at most the caller's cap (cap_string)
+  ("message", "GetStringWithMaxSize", "bytesToRead"),
+  -- key derivation: the caller's constant key length
+  ("security", "deriveSessionKey", "keyLen"),
+  -- SciToken: the announced size is checked against the sub-protocol limit first (fix 71218b1)
+  ("security", "exchangeSciToken", "tokenSize"),
+  -- minting: the caller's constant
+  ("security", "randomHexKey", "nbytes"),
+  -- session-state blob: each variable-length field is checked against the bytes left in the blob (total_text_blob)
+  ("stream", "NewStreamWithCryptoState", "n"),
+  -- frames: the announced length is checked against MaxMessageSize before the allocation (oversize_header_refused)
+  ("stream", "ReceiveFrame", "messageLength"),
+  ("stream", "ReceiveFrameWithEnd", "messageLength"),
+  -- sending: plaintext length plus the constant overhead
+  ("stream", "encryptDataWithAAD", "outputSize"),
+  ("stream", "grabFrame", "n") ]
+
+/-- **variable_sized_allocations_declared** — over the table of ALL slice allocations in stream/,
+    message/, security/, ccb/, client/, server/, addresses/ whose size is neither a constant nor the
+    length of something that already exists (regenerated on every run, `tools/gen/facts_alloc.go`):
+    each is one of the sites above, whose size is bounded before the allocation. A `make([]byte, n)`
+    on a freshly decoded length added anywhere in those packages is a new row and breaks this
+    theorem, whether or not an engine drives that code. -/
+theorem variable_sized_allocations_declared :
+    (∀ s ∈ CedarGen.FactsAlloc.variableSized, s ∈ declaredVariableSized) ∧
+    CedarGen.FactsAlloc.variableSized ≠ [] := by
+  decide
 
 /-- non-vacuity: the table is not empty — it lists the negotiation ad of both roles, the
     post-authentication ad, the resume reply and both CCB readers -/
